@@ -243,3 +243,79 @@ Qed.
 
 End Main.
 End Conv.
+
+(* ================================================================ parsed trees *)
+Section Parsed.
+Variable is_word_char : Z -> bool.
+Variable to_lower : Z -> Z.
+Variable simple_fold : Z -> Z.
+Variable participates : Z -> bool.
+Variable cat_in : Z -> Z -> bool.
+Variable cat_name : list Z -> Z.
+
+Local Notation parse := (parse is_word_char to_lower simple_fold participates cat_in cat_name).
+
+(* the root of the converted tree *)
+Lemma root_conv sid capin t : n_t t = T_Capture -> n_m t = 0 -> n_n t = -1 -> forall root,
+  wfb capin t = true -> to_node sid t = Some root -> exists body, root = NCapture (n_o t) 0 (-1) body.
+Proof.
+  destruct t as [t o ch m n str st kids]. cbn [n_t n_m n_n n_o]. intros -> -> -> root W E.
+  apply wf_iff in W. destruct W as [KN _]. unfold knd in KN. cbn in KN.
+  destruct kids as [|k [|k2 r]]; try discriminate.
+  rewrite to_node_eq in E. cbn [to_nodes] in E. destruct (to_node sid k) as [tk|]; [|discriminate].
+  cbn in E. inversion E; subst. eexists. reflexivity.
+Qed.
+
+(* (a), (b): every option word, every oracle *)
+Theorem parsed_tree_supported_term o mco_flag p t caps captop :
+  parse o mco_flag p = Ok (PR_Tree t caps captop) ->
+  forall sid, exists body,
+    to_node sid t = Some (NCapture (n_o t) 0 (-1) body) /\
+    supported2 (NCapture (n_o t) 0 (-1) body) = true /\ term_ok (NCapture (n_o t) 0 (-1) body) = true.
+Proof.
+  intros E sid.
+  pose proof (parse_tree_shape is_word_char to_lower simple_fold participates cat_in cat_name o mco_flag p t caps captop E) as W.
+  destruct (parse_tree_root is_word_char to_lower simple_fold participates cat_in cat_name o mco_flag p t caps captop E) as [R1 [R2 R3]].
+  destruct (wf_conv sid (fun _ => true) t W) as [root [ER [[S [T _]] _]]].
+  destruct (root_conv sid (fun _ => true) t R1 R2 R3 root W ER) as [body ->].
+  exists body. auto.
+Qed.
+
+(* (c): not ECMAScript; the word-character oracle agrees with the ASCII table on a dozen characters;
+   Captop below MaxInt32 *)
+Theorem parsed_tree_groups o mco_flag p t caps captop :
+  (forall c, is_word_char c = true -> negb (zmem c [33; 35; 39; 40; 41; 45; 60; 61; 62; 63; 91; 92]) = true) ->
+  (forall c, (49 <=? c) && (c <=? 57) = true -> is_word_char c = true) ->
+  useE o = false -> captop < maxint32 ->
+  parse o mco_flag p = Ok (PR_Tree t caps captop) ->
+  forall sid, exists body,
+    to_node sid t = Some (NCapture (n_o t) 0 (-1) body) /\
+    supported2 (NCapture (n_o t) 0 (-1) body) = true /\ term_ok (NCapture (n_o t) 0 (-1) body) = true /\
+    ren_ok (fun g => zmem g caps = true) (NCapture (n_o t) 0 (-1) body).
+Proof.
+  intros HW HD HE HT E sid.
+  pose proof (parse_tree_wf is_word_char to_lower simple_fold participates cat_in cat_name HW HD o mco_flag p t caps captop HE HT E) as W.
+  destruct (parse_tree_root is_word_char to_lower simple_fold participates cat_in cat_name o mco_flag p t caps captop E) as [R1 [R2 R3]].
+  destruct (wf_conv sid (fun k => zmem k caps) t W) as [root [ER [[S [T R]] _]]].
+  destruct (root_conv sid (fun k => zmem k caps) t R1 R2 R3 root W ER) as [body ->].
+  exists body. auto.
+Qed.
+
+(* the capture table: Parse hands Caps and Captop on; the keys are sorted, hold 0, lie below Captop *)
+Theorem parsed_caps_table o mco_flag p t caps captop :
+  parse o mco_flag p = Ok (PR_Tree t caps captop) ->
+  ssorted caps /\ In 0 caps /\ (forall k, In k caps -> 0 <= k) /\ (captop < maxint32 -> forall k, In k caps -> k < captop).
+Proof.
+  intros E. unfold Parser.parse in E.
+  destruct (negb pl_bounds_ok); [discriminate|].
+  destruct (negb (forallb (fun c => 0 <=? c) p)); [discriminate|].
+  set (mco := mco_flag || useE o || useRE2 o) in *.
+  destruct (count_captures is_word_char to_lower simple_fold cat_in cat_name mco o p) as [tb|e q| | |] eqn:EC; cbn [pbind] in E; try discriminate.
+  destruct (scan_regex is_word_char to_lower simple_fold participates cat_in cat_name (captab_main tb) mco o p) as [t0|e q| | |];
+    cbn [pbind] in E; try discriminate.
+  inversion E; subst.
+  destruct (count_captures_table is_word_char to_lower simple_fold participates cat_in cat_name mco o p tb EC) as [[TS TZ TN TB TL TV] _].
+  auto.
+Qed.
+
+End Parsed.
